@@ -228,6 +228,13 @@ def _case(args):
                     "filtered": filtered, "logs": logs, "tiny": tiny}
             ds.filter.manual[:] = mask
             ds.apply_filter()
+            # a dataset somebody has looked at (lazy caches filled)
+            try:
+                np.asarray(ds["deform"][:])
+                ds["image"][0]
+                ds["deform"].mean() if hasattr(ds["deform"], "mean") else 0
+            except Exception:
+                pass
             sel = np.flatnonzero(mask) if filtered else np.arange(n)
             tags = {"kind": kind, "filtered": filtered,
                     "empty": len(sel) == 0,
